@@ -649,7 +649,36 @@ class _FArr:
     def __iter__(self):
         return iter(self.data)
 
+    # elementwise comparison with a scalar and boolean-mask selection (1-d), as numpy arrays do
+    def _cmp(self, other, op):
+        if len(self.shape) != 1 or isinstance(other, (_FArr, list, tuple, _np.ndarray)):
+            return NotImplemented
+        return _FArr([op(x, other) for x in self.data], self.shape, _np.dtype("bool"))
+
+    def __eq__(self, other):
+        return self._cmp(other, lambda a, b: a == b)
+
+    def __ne__(self, other):
+        return self._cmp(other, lambda a, b: a != b)
+
+    def __gt__(self, other):
+        return self._cmp(other, lambda a, b: a > b)
+
+    def __ge__(self, other):
+        return self._cmp(other, lambda a, b: a >= b)
+
+    def __lt__(self, other):
+        return self._cmp(other, lambda a, b: a < b)
+
+    def __le__(self, other):
+        return self._cmp(other, lambda a, b: a <= b)
+
+    __hash__ = None
+
     def __getitem__(self, i):
+        if isinstance(i, _FArr) and len(self.shape) == 1 and i.shape == self.shape:
+            sel = [x for x, m in zip(self.data, i.data) if m]
+            return _FArr(sel, (len(sel),), self.dtype.dt)
         if isinstance(i, tuple):
             # NumPy-style indexing of the nested list with ints / slices
             def rec(x, keys):
@@ -1313,6 +1342,7 @@ def _script_upgrade(h5, path):
                         [_txt(x) for x in ref], len(set(unc)), any(unc), any(ref), any(chk),
                         any(prop["filename"]), prop.attrs.get("unit"), prop.attrs.get("definition"),
                         len(values.dtype), len(prop)))
+            obs.append(("mask", [float(x) for x in unc[unc != 0]], len(unc[unc > 0.3]), [bool(x) for x in unc == 0.5]))
             rows = prop[:]
             obs.append(("rows", len(rows), [_txt(r["value"]) for r in rows],
                         [float(r["uncertainty"]) for r in rows]))
